@@ -31,6 +31,38 @@ var (
 
 func init() { transport.RegisterTransport(tran{}) }
 
+// Process-wide activity counter: bumped on every library Send and every pipe
+// close, so harness goroutines can block (not poll) while waiting for traffic —
+// a polling goroutine would defeat the stuck detector's quiescence test.
+var (
+	actMu  sync.Mutex
+	actCv  = sync.NewCond(&actMu)
+	actVer uint64
+)
+
+func bump() {
+	actMu.Lock()
+	actVer++
+	actCv.Broadcast()
+	actMu.Unlock()
+}
+
+// Kick wakes every WaitActivity caller (use it when asking helper goroutines to stop).
+func Kick() { bump() }
+
+// Activity returns the current activity version.
+func Activity() uint64 { actMu.Lock(); defer actMu.Unlock(); return actVer }
+
+// WaitActivity blocks until the activity version exceeds since and returns it.
+func WaitActivity(since uint64) uint64 {
+	actMu.Lock()
+	defer actMu.Unlock()
+	for actVer <= since {
+		actCv.Wait()
+	}
+	return actVer
+}
+
 func name(addr string) string { return strings.TrimPrefix(addr, scheme+"://") }
 
 // Addr returns the address for endpoint name n.
@@ -156,6 +188,7 @@ func (p *Pipe) Send(m *mangos.Message) error {
 	p.sent = append(p.sent, s)
 	p.cv.Broadcast()
 	m.Free()
+	bump()
 	return nil
 }
 
@@ -194,6 +227,7 @@ func (p *Pipe) Close() error {
 	}
 	p.cv.Broadcast()
 	p.mu.Unlock()
+	bump()
 	return nil
 }
 
